@@ -279,8 +279,9 @@ func (g *Gen) findLoops() {
 	}
 	for n := range g.spec.Loops {
 		if n < 1 || n > len(g.loops) {
-			// the loop the contract talks about is gone: its obligations can no longer be discharged
-			g.shapeErrors = append(g.shapeErrors, fmt.Sprintf("loop%d-missing(function has %d loops)", n, len(g.loops)))
+			// the loop the contract talks about is gone (e.g. replaced by a builtin or a call): its invariants were
+			// auxiliary to the function's postconditions, which are still checked; not an alarm by itself
+			g.Warnings = append(g.Warnings, fmt.Sprintf("contract names loop %d but the function has %d loops: loop clauses ignored", n, len(g.loops)))
 		}
 	}
 	// reverse postorder ignoring back edges
@@ -415,7 +416,11 @@ func (g *Gen) iteChain(conds []string, val func(i int) string) string {
 
 func (g *Gen) block(b *ssa.BasicBlock) {
 	g.curBlock = b
-	if b.Index == 0 {
+	if b.Index == 0 && len(g.inlStack) > 0 {
+		f := g.inlStack[len(g.inlStack)-1]
+		g.curPC = f.entryPC
+		g.cur = f.entrySt.clone()
+	} else if b.Index == 0 {
 		g.curPC = "true"
 		g.cur = g.entry.clone()
 	} else {
@@ -437,7 +442,7 @@ func (g *Gen) block(b *ssa.BasicBlock) {
 		if len(conds) == 0 {
 			g.unsupported("block %d has no processed predecessor", b.Index)
 		}
-		pcName := g.declare(fmt.Sprintf("pc!%d", b.Index), "Bool")
+		pcName := g.declare(fmt.Sprintf("%spc!%d", g.valPrefix, b.Index), "Bool")
 		g.assume(sEq(pcName, sOr(conds...)))
 		g.curPC = pcName
 		g.cur = g.mergeStates(conds, sts)
@@ -818,19 +823,36 @@ func (g *Gen) prepass() {
 	for _, p := range g.fn.FreeVars {
 		reg(p.Type(), 0)
 	}
-	for _, b := range g.fn.Blocks {
-		for _, in := range b.Instrs {
-			if v, ok := in.(ssa.Value); ok {
-				reg(v.Type(), 2)
-			}
-			var ops []*ssa.Value
-			for _, op := range in.Operands(ops) {
-				if *op != nil {
-					reg((*op).Type(), 2)
+	scanned := map[*ssa.Function]bool{}
+	var scan func(fn *ssa.Function, depth int)
+	scan = func(fn *ssa.Function, depth int) {
+		if scanned[fn] {
+			return
+		}
+		scanned[fn] = true
+		for _, b := range fn.Blocks {
+			for _, in := range b.Instrs {
+				if v, ok := in.(ssa.Value); ok {
+					reg(v.Type(), 2)
+				}
+				var ops []*ssa.Value
+				for _, op := range in.Operands(ops) {
+					if *op != nil {
+						reg((*op).Type(), 2)
+					}
+				}
+				// callees without a contract are translated in place (inline.go): their heaps must be known too
+				if ci, ok := in.(ssa.CallInstruction); ok && depth < inlineMaxDepth {
+					if cf := ci.Common().StaticCallee(); cf != nil && !ci.Common().IsInvoke() {
+						if _, has := g.DB.Funcs[FuncKey(cf)]; !has && g.inlinable(cf) {
+							scan(cf, depth+1)
+						}
+					}
 				}
 			}
 		}
 	}
+	scan(g.fn, 0)
 	g.frozen = true
 }
 
